@@ -12,6 +12,7 @@
 #include "common.h"
 
 #include <assert.h>
+#include <ctype.h>
 #include <errno.h>
 #include <math.h>
 
@@ -97,6 +98,42 @@ sb_fmt(struct sbuf *b, const char *fmt, ...)
     vsnprintf(tmp, sizeof tmp, fmt, ap);
     va_end(ap);
     sb_str(b, tmp);
+}
+
+/* "~<class of the last error message>" after a failing call: the message without its quoted parts, lower case,
+ * other characters as '-' (so that findings can be told apart by the error, not only by the return code) */
+static void
+sb_errclass(struct sbuf *o, const struct ly_ctx *ctx)
+{
+    const struct ly_err_item *e = ctx ? ly_err_last(ctx) : NULL;
+    const char *m = e ? e->msg : NULL;
+    char buf[64];
+    size_t n = 0;
+    int inq = 0;
+
+    if (!m) {
+        return;
+    }
+    for ( ; *m && (n < sizeof buf - 1); ++m) {
+        if (*m == '"') {
+            inq = !inq;
+            continue;
+        }
+        if (inq) {
+            continue;
+        }
+        if (isalnum((unsigned char)*m)) {
+            buf[n++] = (char)tolower((unsigned char)*m);
+        } else if (n && (buf[n - 1] != '-')) {
+            buf[n++] = '-';
+        }
+    }
+    while (n && (buf[n - 1] == '-')) {
+        --n;
+    }
+    buf[n] = 0;
+    sb_str(o, "~");
+    sb_str(o, buf);
 }
 
 /* ---------- argument helpers ---------- */
@@ -893,9 +930,13 @@ run_cmd2(char **w, int nw, struct sbuf *o)
         /* apply t<data> t<diff> */
         NEED(3);
         int t = slot_t(w[1]);
+        const struct ly_ctx *actx = T[slot_t(w[2])] ? LYD_CTX(T[slot_t(w[2])]) : NULL;
         LY_ERR rc = lyd_diff_apply_all(&T[t], T[slot_t(w[2])]);
 
         sb_fmt(o, "%d", (int)rc);
+        if (rc) {
+            sb_errclass(o, actx);
+        }
         if (T[t] && T[t]->prev->next) {
             sb_str(o, "!data-not-first-sibling");
         }
@@ -911,6 +952,9 @@ run_cmd2(char **w, int nw, struct sbuf *o)
         rc = lyd_diff_reverse_all(T[slot_t(w[1])], &d);
         T[t] = d;
         sb_fmt(o, "%d", (int)rc);
+        if (rc && T[slot_t(w[1])]) {
+            sb_errclass(o, LYD_CTX(T[slot_t(w[1])]));
+        }
     } else if (!strcmp(w[0], "dmerge")) {
         /* dmerge t<diff> t<src_diff> opts */
         NEED(4);
